@@ -271,6 +271,40 @@ pub fn c01(seed: u64, budget: u64) -> FOut {
             out.samples.push(J::s(format!("{ups:?}")));
         }
     }
+    // records only move forward along EVERY call of a history - datagrams, API calls, timers, the end of a probe
+    // round included; only the forget-timer of exactly the recorded Down identity takes a record away
+    for h in 0..(budget / 4).max(2) {
+        let hs = seed.wrapping_mul(48271).wrapping_add(h);
+        let mut bad: Option<J> = None;
+        history(hs, 300, |c, _| { if c.max_packet_size < 64 { c.max_packet_size = 200; } }, |pre, input, _effs, _o, post, _rep| {
+            if let Input::ChangeIdentity(n) = input {
+                if n.a != pre.identity.a {
+                    return false; // B3
+                }
+            }
+            use foca::Identity;
+            for m in &pre.members {
+                if m.id.a == pre.identity.a || m.id.a == post.identity.a {
+                    continue;
+                }
+                let ok = match post.members.iter().find(|x| x.id.a == m.id.a) {
+                    None => m.state == 2 && matches!(input, Input::Timer(MTimer::RemoveDown(i)) if *i == m.id),
+                    Some(x) if x.id == m.id => {
+                        if m.state == 2 { x.state == 2 } else { x.state == 2 || x.inc > m.inc || (x.inc == m.inc && x.state >= m.state) }
+                    }
+                    Some(x) => x.id.win_addr_conflict(&m.id),
+                };
+                if !ok {
+                    bad = Some(J::s(format!("history {hs}: record {m:?} became {:?} on {input:?}", post.members.iter().find(|x| x.id.a == m.id.a))));
+                }
+            }
+            bad.is_none()
+        });
+        out.runs += 1;
+        if let Some(b) = bad {
+            out.hit("C01:record-moved-backward", b);
+        }
+    }
     out
 }
 
@@ -397,6 +431,8 @@ pub fn c19(seed: u64, budget: u64) -> FOut {
 pub fn c06(seed: u64, budget: u64) -> FOut {
     let mut out = FOut::default();
     out.rule = "seeded single-instance histories (400 calls) with a heavy malformed stream (random bytes, truncations, bit flips of valid datagrams), forged/stale/duplicated timers, every API call incl. set_config between sends and packet sizes 18..70000, incarnations at MAX, run under catch_unwind on the debug-assertion build; plus Config::new_lan/new_wan on boundaries, powers of ten +-1 and random u32 values. distinct = distinct (input kind, outcome) pairs plus constructor arguments".into();
+    // the smallest encodings a codec may have (one-byte identities, four-byte headers): real crate only
+    crate::altid::check_tiny(seed, &mut out);
     let mut kinds: HashSet<String> = HashSet::new();
     for h in 0..budget {
         let hs = seed.wrapping_mul(104729).wrapping_add(h);
@@ -603,6 +639,28 @@ pub fn c11(seed: u64, budget: u64) -> FOut {
                     if refute {
                         run_real(&mut a.foca, &Input::Data(mk_dgram(b, minc + 1, own, Mg::Gossip)));
                     }
+                    // in half of the rows a later round lost its indirect-stage timer while the timeout was pending:
+                    // the next round starts on the recovery path (IncompleteProbeCycle) - the instance stayed
+                    // connected all along, so the epoch is the same and the pending timeout keeps its force
+                    let lossy = (own_bumps + minc) % 2 == 1;
+                    if lossy {
+                        for _ in 0..2 {
+                            let tok = a.snapshot().token;
+                            let (e, _) = run_real(&mut a.foca, &Input::Timer(MTimer::Probe(tok)));
+                            for x in &e {
+                                if let Eff::Send(d, bytes) = x {
+                                    if let Some(h) = hdr_of(bytes) {
+                                        if let Mg::Ping(k) = h.message {
+                                            if *d != b {
+                                                run_real(&mut a.foca, &Input::Data(mk_dgram(*d, 0, own, Mg::Ack(k))));
+                                            }
+                                        }
+                                    }
+                                }
+                            }
+                        }
+                    }
+                    let row = if lossy { format!("{row} (a later round lost its indirect-stage timer)") } else { row };
                     let pre = a.snapshot();
                     let (effs, _) = run_real(&mut a.foca, &Input::Timer(t.clone()));
                     let post = a.snapshot();
@@ -751,6 +809,33 @@ pub fn c11(seed: u64, budget: u64) -> FOut {
 pub fn c09(seed: u64, budget: u64) -> FOut {
     let mut out = FOut::default();
     out.rule = "seeded single-instance histories (300 calls, several generations per address incl. the instance's own); after every call: no two records share an address, no active record bears the own address, number of records <= distinct addresses told so far, every Rename(a,b) has b winning against a, the identity stored for an address only changes to one that wins (until the address is forgotten), an address loses its record only through the forget-timer of exactly the (Down) identity recorded, a datagram changes only records of addresses it names itself (sender, member section), and a datagram whose sender is not active after header processing (Down or superseded) leaves every other record untouched and reaches the handler with no item. distinct = histories with at least one Rename or own-address record".into();
+    // the instance moved to an address nobody uses (change_identity to a different address: beyond boundary B3 of
+    // the theorems, but the rule still holds there): another identity of the NEW own address is never stored
+    // active and is refused as a sender; the OLD address is an ordinary address again
+    for connected in [false, true] {
+        let own = VId::new(9, 1, 0, 0);
+        let cfg = big_cfg();
+        let mut a = Inst::new(own, &cfg, seed ^ 0x90B3, 0, 255);
+        if connected {
+            run_real(&mut a.foca, &Input::ApplyMany(vec![MMember { id: VId::new(2, 0, 0, 0), inc: 0, state: 0 }, MMember { id: VId::new(3, 0, 0, 0), inc: 0, state: 0 }], false));
+        }
+        let new_own = VId::new(20, 0, 0, 0);
+        run_real(&mut a.foca, &Input::ChangeIdentity(new_own));
+        run_real(&mut a.foca, &Input::ApplyMany(vec![MMember { id: VId::new(20, 1, 0, 0), inc: 0, state: 0 }, MMember { id: VId::new(4, 0, 0, 0), inc: 0, state: 0 }], true));
+        let s1 = a.snapshot();
+        let (_, o2) = run_real(&mut a.foca, &Input::Data(mk_dgram_ups(VId::new(20, 2, 0, 0), 0, new_own, foca::Message::Gossip, &[MMember { id: VId::new(5, 0, 0, 0), inc: 0, state: 0 }])));
+        let s2 = a.snapshot();
+        run_real(&mut a.foca, &Input::ApplyMany(vec![MMember { id: VId::new(9, 5, 0, 0), inc: 0, state: 0 }], true));
+        let s3 = a.snapshot();
+        out.runs += 1;
+        let own_active = |s: &MState| s.members.iter().any(|m| m.id.a == 20 && m.state != 2);
+        if s1.identity != new_own || own_active(&s1) || own_active(&s2) || o2 == Outcome::Done || s2.members.iter().any(|m| m.id.a == 5) {
+            out.hit("C09:own-address-active", J::s(format!("moved to an address nobody uses ({new_own:?}): after news about another identity of it {:?}; after a datagram from another identity of it ({o2:?}) {:?}", s1.members, s2.members)));
+        }
+        if !s3.members.iter().any(|m| m.id == VId::new(9, 5, 0, 0) && m.state == 0) {
+            out.hit("C09:old-address-not-released", J::s(format!("after moving to {new_own:?} an Alive update about the old address is not stored: {:?}", s3.members)));
+        }
+    }
     for h in 0..budget {
         let mut hits: Vec<(String, J)> = vec![];
         let mut told: HashSet<u16> = HashSet::new();
@@ -1189,6 +1274,24 @@ pub fn c17(seed: u64, budget: u64) -> FOut {
     let mut out = FOut::default();
     crate::eqid::check(seed, &mut out);
     out.rule = "twin runs on the real crate: a seeded base history (200 calls) is replayed on a second identical instance with rejected inputs of every class (oversize, undecodable header, member list that stops decoding after some good members, own identity/address source, wrong destination, one trailing byte, stale-epoch timers, NotUndead, SameIdentity, InvalidConfig, empty add_broadcast) inserted at random points; every effect list and result of the base inputs and the final full state (incl. RNG position) must be identical, and each inserted input must itself produce no effect; also the same history twice gives identical streams; and, with an identity type whose PartialEq ignores a metadata field, a change_identity call rejected with SameIdentity leaves the stored identity (metadata included) untouched. distinct = twin runs with at least 5 insertions of at least 3 classes".into();
+    // add_broadcast refused with DataTooBig through the u16 framing limit (an item between 65536 and max_packet_size
+    // bytes, packets larger than 65535): nothing may have happened - the handler must not even have seen the item
+    for len in [65536usize, 65600, 69999] {
+        let own = VId::new(9, 1, 0, 0);
+        let mut cfg = big_cfg();
+        cfg.max_packet_size = 70000;
+        let mut a = Inst::new(own, &cfg, seed ^ 0xB16, 0, 255);
+        run_real(&mut a.foca, &Input::ApplyMany(vec![MMember { id: VId::new(2, 0, 0, 0), inc: 0, state: 0 }], false));
+        let pre = a.snapshot();
+        let mut item = vec![7u8, 9];
+        item.resize(len, 1);
+        let (effs, o) = run_real(&mut a.foca, &Input::AddBroadcast(item));
+        let post = a.snapshot();
+        out.runs += 1;
+        if matches!(o, Outcome::Failed(_)) && (post != pre || !effs.is_empty()) {
+            out.hit("C17:rejected-input-leaves-trace", J::s(format!("add_broadcast of {len} bytes with max_packet_size 70000 -> {o:?}, but the state changed in {:?} (handler saw {:?} before, {:?} after)", pre.diff(&post), pre.h_seen, post.h_seen)));
+        }
+    }
     for h in 0..budget {
         let hs = seed.wrapping_mul(92821).wrapping_add(h);
         // run A, recording inputs
@@ -1316,6 +1419,9 @@ pub fn c14(seed: u64, budget: u64) -> FOut {
         // a third of the layouts: the runtime loses some SendIndirectProbe timers - the next round then starts on
         // the recovery path (it reports IncompleteProbeCycle) and must still ping the next member in turn
         let lossy = g.chance(33);
+        // 40% of the layouts: between the rounds the instance also gossips, announces and broadcasts - sending
+        // must not disturb the rotation (the member set stays the same)
+        let chatty = g.chance(40);
         for round in 0..total {
             if round == warm && late > 0 {
                 run_real(&mut inst.foca, &Input::ApplyMany(later.to_vec(), false));
@@ -1332,6 +1438,14 @@ pub fn c14(seed: u64, budget: u64) -> FOut {
             let pre = inst.snapshot();
             if pre.conn != 1 {
                 break;
+            }
+            if chatty && round >= warm {
+                match g.below(4) {
+                    0 => { run_real(&mut inst.foca, &Input::Gossip); }
+                    1 => { run_real(&mut inst.foca, &Input::Announce(active[g.below(active.len() as u64) as usize])); }
+                    2 => { run_real(&mut inst.foca, &Input::Broadcast); }
+                    _ => {}
+                }
             }
             let (effs, _o) = run_real(&mut inst.foca, &Input::Timer(MTimer::Probe(pre.token)));
             let mut this_round = vec![];
@@ -1505,6 +1619,8 @@ pub fn c07(seed: u64, budget: u64) -> FOut {
 pub fn c10(seed: u64, budget: u64) -> FOut {
     let mut out = FOut::default();
     out.rule = "seeded histories (300 calls) over incarnations {0,1,2,2^15 boundary,MAX-1,MAX,random}, suspicions older/equal/newer than the own incarnation, the four renew kinds (none / bump / same / losing); monitors after every call: a new identity starts at incarnation 0, the own incarnation never decreases while the identity is kept (except reuse_down_identity), grows only when the input carried Suspect(self, i >= own) and then exceeds i, every header carries the current identity with an incarnation between the values before and after the call, no update ever leaves with an incarnation above the highest one told for that identity (0 for locally created Down records), and learning Down(self) (update, TurnUndead, Suspect at MAX) ends in a renewed winning identity with Rejoin or in Defunct - never still connected under the dead identity. distinct = histories with at least one self-suspicion and one Down(self)".into();
+    // an identity whose conflict order has ties (outside the model's identity laws): real crate only
+    crate::altid::check_tie(seed, &mut out);
     // learning Down(self) in every connection state a live instance can be in: fresh (the very first datagram),
     // idle again, connected; by a Down update, a TurnUndead, a suspicion at the maximum incarnation
     for state in 0..3u8 {
@@ -1902,6 +2018,39 @@ pub fn c15(seed: u64, budget: u64) -> FOut {
 pub fn c16(seed: u64, budget: u64) -> FOut {
     let mut out = FOut::default();
     out.rule = "seeded histories (300 calls) with table-driven handlers (4 invalidation modes, random recipient masks), items of 1..40 bytes, all packet sizes/kinds; a ledger of accepted items (bytes, key, transmissions left) is kept from add_broadcast results, handler calls and emitted custom sections: every item on the wire is a pending one, whole and exactly framed, on at most max_transmissions datagrams, never on Announce/TurnUndead, never to a member the handler refuses, never after a newly accepted key invalidated it; every datagram is delivered to a fresh receiver whose handler must see exactly the framed items, in order, once each, with the sender's identity; broadcast() emits only Broadcast datagrams without member section to at most num_indirect_probes members, nothing when the backlog is empty. distinct = histories with at least 5 custom items on the wire".into();
+    // exact-fit: an item of L bytes with L, L+1, L+2, L+3 bytes of room after the header - the frame needs L + 2:
+    // with less the item stays in the backlog untouched, with enough it is sent whole; never a panic
+    for l in [1usize, 2, 5, 17, 40] {
+        for d in 0..4u128 {
+            let own = VId::new(9, 1, 0, 0);
+            let peer = VId::new(2, 0, 0, 0);
+            let hdr = header_bytes(&foca::Header { src: own, src_incarnation: 0, dst: peer, message: foca::Message::Broadcast }).len() as u128;
+            let mut cfg = big_cfg();
+            cfg.max_packet_size = hdr + l as u128 + d;
+            cfg.max_transmissions = 3;
+            let mut a = Inst::new(own, &cfg, seed ^ 0xF17, 0, 255);
+            run_real(&mut a.foca, &Input::ApplyMany(vec![MMember { id: peer, inc: 0, state: 0 }], false));
+            let item: Vec<u8> = (0..l).map(|i| if i == 0 { 7 } else { i as u8 }).collect();
+            run_real(&mut a.foca, &Input::AddBroadcast(item.clone()));
+            let pre = a.snapshot();
+            let (effs, o) = run_real(&mut a.foca, &Input::Broadcast);
+            out.runs += 1;
+            let row = format!("item of {l} bytes, {} bytes of room after the header: broadcast() -> {o:?}", l as u128 + d);
+            if matches!(o, Outcome::Panicked(_)) {
+                out.hit("C16:item-not-framed-whole", J::s(format!("{row} (panic)")));
+                continue;
+            }
+            let post = a.snapshot();
+            let sent: Vec<Vec<Vec<u8>>> = effs.iter().filter_map(|e| if let Eff::Send(_, b) = e { split_datagram(b).map(|x| x.2) } else { None }).collect();
+            if d >= 2 {
+                if sent != vec![vec![item.clone()]] || post.customs.iter().any(|c| c.0 != 2) {
+                    out.hit("C16:item-not-framed-whole", J::s(format!("{row}; custom sections sent {sent:?}, backlog {:?}", post.customs)));
+                }
+            } else if sent.iter().any(|s| !s.is_empty()) || post.customs != pre.customs {
+                out.hit("C16:item-not-framed-whole", J::s(format!("{row}; custom sections sent {sent:?}, backlog before {:?} after {:?}", pre.customs, post.customs)));
+            }
+        }
+    }
     for h in 0..budget {
         let hs = seed.wrapping_mul(32452843).wrapping_add(h);
         let mut hits: Vec<(String, J)> = vec![];
@@ -2244,6 +2393,60 @@ pub fn c12(seed: u64, budget: u64) -> FOut {
                         J::s(format!("round with target {target:?} aborted {} its indirect stage by {what}; first round afterwards: {o3:?}, newly Suspect {newly_suspect:?}, suspicion timeouts scheduled {timeouts}", if after_indirect { "after" } else { "before" })),
                     );
                 }
+            }
+        }
+    }
+    // a probe-protocol datagram whose custom-broadcast tail the handler rejects is still acted on (the error is
+    // reported after the reaction): Ping is acked, the relay hops are forwarded, a genuine Ack still counts
+    {
+        let bad_tail = [0u8, 1, 255]; // one framed item the harness handler refuses
+        let with_tail = |mut d: Vec<u8>| -> Vec<u8> { d.extend(bad_tail); d };
+        let a_id = VId::new(50, 1, 0, 0);
+        let cfg = big_cfg();
+        let members: Vec<MMember> = (1..=3u16).map(|i| MMember { id: VId::new(i, 0, 0, 0), inc: 0, state: 0 }).collect();
+        let m1 = members[0].id;
+        let m2 = members[1].id;
+        let sends_kind = |e: &Vec<Eff>, to: VId, want: &dyn Fn(&foca::Message<VId>) -> bool| e.iter().any(|x| matches!(x, Eff::Send(d, b) if *d == to && hdr_of(b).map(|h| want(&h.message)).unwrap_or(false)));
+        for case in 0..4u8 {
+            let mut a = Inst::new(a_id, &cfg, seed ^ (0xBAD0 + case as u64), 0, 255);
+            run_real(&mut a.foca, &Input::ApplyMany(members.clone(), false));
+            out.runs += 1;
+            out.distinct.insert(hash_of(&("bad-tail", case)));
+            let (what, ok) = match case {
+                0 => {
+                    let (e, _) = run_real(&mut a.foca, &Input::Data(with_tail(mk_dgram(m1, 0, a_id, Mg::Ping(7)))));
+                    ("Ping(7) not answered by Ack(7)", sends_kind(&e, m1, &|m| *m == Mg::Ack(7)))
+                }
+                1 => {
+                    let (e, _) = run_real(&mut a.foca, &Input::Data(with_tail(mk_dgram(m1, 0, a_id, Mg::PingReq { target: m2, probe_number: 9 }))));
+                    ("PingReq not relayed as IndirectPing", sends_kind(&e, m2, &|m| *m == (Mg::IndirectPing { origin: m1, probe_number: 9 })))
+                }
+                2 => {
+                    let (e, _) = run_real(&mut a.foca, &Input::Data(with_tail(mk_dgram(m1, 0, a_id, Mg::IndirectAck { target: m2, probe_number: 9 }))));
+                    ("IndirectAck not relayed as ForwardedAck", sends_kind(&e, m2, &|m| *m == (Mg::ForwardedAck { origin: m1, probe_number: 9 })))
+                }
+                _ => {
+                    // a round whose genuine Ack carries a refused tail: no PingReq, no suspicion
+                    let tok = a.snapshot().token;
+                    let (e, _) = run_real(&mut a.foca, &Input::Timer(MTimer::Probe(tok)));
+                    let ping = e.iter().find_map(|x| if let Eff::Send(d, b) = x { hdr_of(b).and_then(|h| if let Mg::Ping(k) = h.message { Some((*d, k)) } else { None }) } else { None });
+                    let ind = e.iter().find_map(|x| if let Eff::Submit(t @ MTimer::Indirect(..), _) = x { Some(t.clone()) } else { None });
+                    match (ping, ind) {
+                        (Some((t, k)), Some(it)) => {
+                            run_real(&mut a.foca, &Input::Data(with_tail(mk_dgram(t, 0, a_id, Mg::Ack(k)))));
+                            let (e2, _) = run_real(&mut a.foca, &Input::Timer(it));
+                            let req = e2.iter().any(|x| matches!(x, Eff::Send(_, b) if hdr_of(b).map(|h| matches!(h.message, Mg::PingReq { .. })).unwrap_or(false)));
+                            let tok = a.snapshot().token;
+                            let (e3, _) = run_real(&mut a.foca, &Input::Timer(MTimer::Probe(tok)));
+                            let susp = a.snapshot().members.iter().any(|m| m.id == t && m.state != 0) || e3.iter().any(|x| matches!(x, Eff::Submit(MTimer::SuspectToDown(..), _)));
+                            ("a timely Ack with the current number was not recorded", !req && !susp)
+                        }
+                        _ => ("no probe round", false),
+                    }
+                }
+            };
+            if !ok {
+                out.hit("C12:rejected-custom-tail-suppresses-reaction", J::s(format!("datagram with a custom-broadcast item the handler refuses: {what}")));
             }
         }
     }
